@@ -758,6 +758,7 @@ func (prop) Describe() driver.Description {
 		FaultKinds:  []string{"crash-during-build", "torn-write", "disk-error-during-build"},
 		Workers:     8,
 		QuickBudget: 100, ThoroughBudget: 2400,
+		RunTimeout: 3600, // a history is a dozen real compiler runs
 	}
 }
 
